@@ -235,7 +235,14 @@ func (m *monC03) checkBtc(w *World, n *Node, so *SwapOutput, o *Obs) {
 	if fee < vsize { // 1 sat/vB relay floor
 		w.Violate("C03", "fee-below-relay-floor:btc", "node %d: spend %.12s pays fee %d for %d vbytes", n.ID, o.Tx.TxID, fee, vsize)
 	}
-	rate := w.Plan.Scn.BtcFeePerKw[n.ID] * 4 / 1000 // sat/vB
+	// the rate the node was actually told (fault kinds make the estimator answer
+	// with other rates than the scenario's; paying what the estimator says is
+	// "only the fee")
+	kw := w.Plan.Scn.BtcFeePerKw[n.ID]
+	if n.ext.maxFeeKw > kw {
+		kw = n.ext.maxFeeKw
+	}
+	rate := kw * 4 / 1000 // sat/vB
 	if rate < 1 {
 		rate = 1
 	}
